@@ -127,6 +127,30 @@ func HostileInputs(pattern string, rng *rand.Rand) []string {
 		}
 	}
 	out = append(out, lit.String())
+	// a text the pattern is likely to match, or almost match, read off its syntax; with prefixes and
+	// suffixes of it, so that the input ends (or begins) in the middle of what the pattern expects
+	for k := 0; k < 1; k++ {
+		smp := []rune(ApproxSample(pattern, rng))
+		if len(smp) == 0 || len(smp) > 200 {
+			continue
+		}
+		out = append(out, string(smp))
+		// cut after every word (the text ends where the pattern still expects a separator)
+		words := 0
+		for i := 1; i < len(smp) && words < 6; i++ {
+			if smp[i] == ' ' && smp[i-1] != ' ' {
+				out = append(out, string(smp[:i]))
+				words++
+			}
+		}
+		for j := 0; j < 4; j++ {
+			cut := rng.Intn(len(smp) + 1)
+			out = append(out, string(smp[:cut]))
+			if j%3 == 0 {
+				out = append(out, string(smp[cut:]))
+			}
+		}
+	}
 	for k := 0; k < 3; k++ {
 		var sb strings.Builder
 		for i := rng.Intn(12); i > 0; i-- {
@@ -135,6 +159,165 @@ func HostileInputs(pattern string, rng *rand.Rand) []string {
 		out = append(out, sb.String())
 	}
 	return out
+}
+
+// ApproxSample reads a plausible matching text off the surface syntax of a
+// pattern (which may be malformed): escapes become a member of their class,
+// bracket classes their first member, groups and quantifiers are dropped,
+// alternatives are picked at random. No claim that the result matches.
+func ApproxSample(pattern string, rng *rand.Rand) string {
+	r := []rune(pattern)
+	var sb strings.Builder
+	// alternation: work on one randomly chosen top-level-ish alternative per group by skipping
+	// from a '|' to the closing parenthesis half of the time
+	depthSkip := -1
+	depth := 0
+	for i := 0; i < len(r); i++ {
+		c := r[i]
+		if depthSkip >= 0 {
+			switch c {
+			case '\\':
+				i++
+			case '(':
+				depth++
+			case ')':
+				if depth == depthSkip {
+					depthSkip = -1
+				}
+				depth--
+			}
+			continue
+		}
+		switch c {
+		case '\\':
+			if i+1 >= len(r) {
+				break
+			}
+			i++
+			switch e := r[i]; e {
+			case 's':
+				sb.WriteByte(' ')
+			case 'w', 'S', 'D':
+				sb.WriteByte('x')
+			case 'd':
+				sb.WriteByte('1')
+			case 'W':
+				sb.WriteByte(' ')
+			case 'n':
+				sb.WriteByte('\n')
+			case 't':
+				sb.WriteByte('\t')
+			case 'r':
+				sb.WriteByte('\r')
+			case 'b', 'B', 'A', 'z', 'Z', 'G', 'k':
+			case 'p', 'P':
+				for i+1 < len(r) && r[i] != '}' {
+					i++
+				}
+				sb.WriteByte('x')
+			case 'x', 'u':
+				sb.WriteByte('A')
+				for i+1 < len(r) && strings.ContainsRune("0123456789abcdefABCDEF{}", r[i+1]) {
+					i++
+				}
+			default:
+				if e >= '0' && e <= '9' {
+					break
+				}
+				sb.WriteRune(e)
+			}
+		case '[':
+			j := i + 1
+			if j < len(r) && r[j] == '^' {
+				j++
+				sb.WriteByte('x')
+			} else if j < len(r) {
+				if r[j] == '\\' && j+1 < len(r) {
+					switch r[j+1] {
+					case 's':
+						sb.WriteByte(' ')
+					case 'd':
+						sb.WriteByte('1')
+					case 'w':
+						sb.WriteByte('x')
+					default:
+						sb.WriteRune(r[j+1])
+					}
+				} else if r[j] != ']' {
+					sb.WriteRune(r[j])
+				}
+			}
+			for j < len(r) && (r[j] != ']' || j == i+1) {
+				if r[j] == '\\' {
+					j++
+				}
+				j++
+			}
+			i = j
+		case '(':
+			depth++
+			if i+1 < len(r) && r[i+1] == '?' {
+				// skip the group header: (?:  (?=  (?<name>  (?'name'  (?i-m:  (?#...)
+				j := i + 2
+				if j < len(r) && r[j] == '#' {
+					for j < len(r) && r[j] != ')' {
+						j++
+					}
+					depth--
+					i = j
+					break
+				}
+				if j < len(r) && (r[j] == '<' || r[j] == '\'' || r[j] == 'P') {
+					if j+1 < len(r) && (r[j+1] == '=' || r[j+1] == '!') {
+						j += 2
+					} else {
+						for j < len(r) && r[j] != '>' && r[j] != '\'' || j == i+2 {
+							j++
+							if j-i > 40 {
+								break
+							}
+						}
+						j++
+					}
+					i = j - 1
+					break
+				}
+				for j < len(r) && strings.ContainsRune("imnsx-=!:>", r[j]) {
+					j++
+					if r[j-1] == ':' || r[j-1] == '=' || r[j-1] == '!' || r[j-1] == '>' {
+						break
+					}
+				}
+				i = j - 1
+			}
+		case ')':
+			depth--
+		case '|':
+			if rng.Intn(2) == 0 {
+				depthSkip = depth // drop the remaining alternatives of this group
+				if depth == 0 {
+					return sb.String()
+				}
+			} else {
+				// restart the current alternative: keep what was collected before the group is unknown,
+				// so simply go on (the alternatives get concatenated)
+			}
+		case '*', '+', '?', '^', '$':
+		case '{':
+			j := i
+			for j < len(r) && r[j] != '}' && j-i < 12 {
+				j++
+			}
+			if j < len(r) && r[j] == '}' {
+				i = j
+			}
+		case '.':
+			sb.WriteByte('y')
+		default:
+			sb.WriteRune(c)
+		}
+	}
+	return sb.String()
 }
 
 // HostileReplacements are replacement strings used in C10.
